@@ -488,6 +488,9 @@ def gen_payload_cases(ctx):
             C.add("vbkblock/time", "vbkblock", str(i), "tsrel", str(k), claim, "time")
         C.add("vbkblock/height", "vbkblock", str(i), "height", str(-(h + 1)), "R")
         C.add("vbkblock/height", "vbkblock", str(i), "height", str(4097 * 8000 - h), "R")
+        # first height without an entry in the 4096-entry ethash size/seed tables (epoch 4096): an accepted header would be
+        # hashed next and index past the tables (repaired off-by-one `epoch > 4096`, known_findings.txt)
+        C.add("vbkblock/height-epoch-4096", "vbkblock", str(i), "height", str(4096 * 8000 - h + (i * 1999)), "R")
     # a REAL mainnet header under mainnet parameters: the PoW verdict depends on the hash (1 in 1.7e11 headers passes), the
     # time rule and the minimum difficulty are live; fresh objects and objects that already hold another header + its hash
     H, src = mainnet_header()
